@@ -503,29 +503,29 @@ def spec_ite(I, w, k, opts):
 
 
 def spec_var(I, w, k, opts):
-    s, sel = any_symbol(w, 's')
+    s, sel = any_symbol(w, 's' + opts.get('sfx', ''))
     exp = []
     for sg in all_assignments(k):
         exp.append(gor(*[gand(sel[i], sg[i]) for i in range(k)]))
     return dict(method='var', args=[s], expected=exp,
-                case=_case('var', w, k, [], lambda m, c: [str(c['ids'][sel_index(m, 's', k)])]))
+                case=_case('var', w, k, [], lambda m, c: [str(c['ids'][sel_index(m, 's' + opts.get('sfx', ''), k)])]))
 
 
 def spec_const(I, w, k, opts):
-    b = z3.Bool('cb')
+    b = z3.Bool('cb' + opts.get('sfx', ''))
     return dict(method='mk_const', args=[b], expected=[b] * (1 << k),
-                case=_case('const', w, k, [], lambda m, c: ['1' if m.get('cb') else '0']))
+                case=_case('const', w, k, [], lambda m, c: ['1' if m.get('cb' + opts.get('sfx', '')) else '0']))
 
 
 def spec_exists_impl(I, w, k, opts):
     A = w.tt('a')
-    s, sel = any_symbol(w, 's')
+    s, sel = any_symbol(w, 's' + opts.get('sfx', ''))
     exp = list(A)
     for i in range(k):
         q = tt_exists(A, k, i)
         exp = [gite(sel[i], q[j], exp[j]) for j in range(1 << k)]
     return dict(method='exists_impl', args=[mk_sref(s), w.canon(A)], expected=exp,
-                case=_case('exists_impl', w, k, ['a'], lambda m, c: [str(c['ids'][sel_index(m, 's', k)])]))
+                case=_case('exists_impl', w, k, ['a'], lambda m, c: [str(c['ids'][sel_index(m, 's' + opts.get('sfx', ''), k)])]))
 
 
 def spec_quant(op, nv):
@@ -533,7 +533,7 @@ def spec_quant(op, nv):
         A = w.tt('a')
         vs, sels = [], []
         for j in range(nv):
-            s, sel = any_symbol(w, 'v%d' % j)
+            s, sel = any_symbol(w, 'v%d%s' % (j, opts.get('sfx', '')))
             vs.append(s)
             sels.append(sel)
         exp = list(A)
@@ -542,7 +542,7 @@ def spec_quant(op, nv):
             q = tt_exists(exp, k, i) if op == 'exists' else tt_forall(exp, k, i)
             exp = [gite(qi, q[j], exp[j]) for j in range(1 << k)]
         return dict(method=op, args=[Seq(vs), w.canon(A)], expected=exp, bound='k=%d, |V|=%d (each element any atom)' % (k, nv),
-                    case=_case(op, w, k, ['a'], lambda m, c: [','.join(str(c['ids'][sel_index(m, 'v%d' % j, k)]) for j in range(nv)) or '-']))
+                    case=_case(op, w, k, ['a'], lambda m, c: [','.join(str(c['ids'][sel_index(m, 'v%d%s' % (j, opts.get('sfx', '')), k)]) for j in range(nv)) or '-']))
     return f
 
 
@@ -550,7 +550,7 @@ def spec_count_const(op, nb):
     """aln/amn/exn(branches, n) with nb branches (arbitrary functions, may coincide) and unconstrained i64 n"""
     def f(I, w, k, opts):
         tts = [w.tt('b%d' % j) for j in range(nb)]
-        n = z3.BitVec('n', 64)
+        n = z3.BitVec('n' + opts.get('sfx', ''), 64)
         exp = []
         for j in range(1 << k):
             cnt = count_bv([t[j] for t in tts])
@@ -566,7 +566,7 @@ def spec_count_const(op, nb):
         pre = z3.And(n >= z3.BitVecVal(INT64_MIN + nb, 64), n <= z3.BitVecVal(INT64_MAX - nb, 64))
         return dict(method=op, args=[mk_sref(Seq([w.canon(t) for t in tts])), n], expected=exp, assume=[pre],
                     bound='k=%d, %d operands, n any i64 with n-len, n+len in range' % (k, nb),
-                    case=_case(op, w, k, ['b%d' % j for j in range(nb)], lambda m, c: [str(_signed(m.get('n', 0)))]))
+                    case=_case(op, w, k, ['b%d' % j for j in range(nb)], lambda m, c: [str(_signed(m.get('n' + opts.get('sfx', ''), 0)))]))
     return f
 
 
@@ -702,7 +702,7 @@ def spec_infer(I, w, k, opts):
     tt = []
     for sg in all_assignments(k):
         tt.append(gand(*[gand(gor(gnot(pos[i]), sg[i]), gor(gnot(neg[i]), gnot(sg[i]))) for i in range(k)]))
-    s, sel = any_symbol(w, 's')
+    s, sel = any_symbol(w, 's' + opts.get('sfx', ''))
     forced = gor(*[gand(sel[i], pos[i]) for i in range(k)])
 
     def extra(rv):
@@ -716,7 +716,7 @@ def spec_infer(I, w, k, opts):
         for sg in all_assignments(k):
             ok = all((not model.get('cp%d' % i) or sg[i]) and (not model.get('cn%d' % i) or not sg[i]) for i in range(k))
             bits += '1' if ok else '0'
-        return dict(kind='op', op='infer', k=k, ids=ids, tts=[bits], extra=[str(ids[sel_index(model, 's', k)])])
+        return dict(kind='op', op='infer', k=k, ids=ids, tts=[bits], extra=[str(ids[sel_index(model, 's' + opts.get('sfx', ''), k)])])
     return dict(method='infer', args=[w.canon(tt), s], expected=None, extra=extra, case=case, wf_skip=True)
 
 
@@ -728,7 +728,7 @@ def filter_value(name='flt'):
 
 def spec_retain(I, w, k, opts):
     A = w.tt('a')
-    flt, sel, cons = filter_value()
+    flt, sel, cons = filter_value('flt' + opts.get('sfx', ''))
     w.constraints.extend(cons)
     f = w.canon(A)
 
@@ -746,7 +746,7 @@ def spec_retain(I, w, k, opts):
                 ('filter Any: the result is f itself', gand(sel[2], gnot(Veq().eq(rv, f)))),
                 ('result mentions only variables f depends on', gor(*[gand(sup[i], gnot(tt_depends(A, k, i))) for i in range(k)]))]
     return dict(method='retain_choice_bottom_up', args=[f, flt], expected=None, extra=extra,
-                case=_case('retain', w, k, ['a'], lambda m, c: [['True', 'False', 'Any'][sel_index(m, 'flt', 3)]]))
+                case=_case('retain', w, k, ['a'], lambda m, c: [['True', 'False', 'Any'][sel_index(m, 'flt' + opts.get('sfx', ''), 3)]]))
 
 
 def spec_clean(I, w, k, opts):
